@@ -1,6 +1,7 @@
 import Driver.Json
 import Driver.C12
 import Model.Builders
+import Model.Generated.BuildersSite
 import Model.LinSolve
 import Model.Mle
 open Lean Drv Ens Ens.Builders
@@ -19,13 +20,14 @@ def checkShape {α} (n : Nat) (rows : List (List α)) : Except String Unit :=
 
 def getPrior {α} [OfNat α 0] (get : Json → Except String α) (n : Nat) (req : Json) :
     Except String (Prior α) := do
-  match fieldOpt req "prior" with
-  | none => pure .none
-  | some (.arr rows) =>
-      let rs ← (rows.toList).mapM (getList get)
+  match ← getStr (← field req "prior_kind") with
+  | "none" => pure .none
+  | "scalar" => do let a ← get (← field req "prior"); pure (.scalar a)
+  | "dense" => do
+      let rs ← getList (getList get) (← field req "prior")
       checkShape n rs
       pure (.matrix (toMatFn rs))
-  | some j => do let a ← get j; pure (.scalar a)
+  | s => throw s!"bad prior kind {s}"
 
 def ratMatJson (n : Nat) (M : Mat Rat) : Json :=
   listJson (listJson ratJson) (Mat.toLists n M)
@@ -57,6 +59,16 @@ def getContainer (s : String) : Except String Container :=
            let f ← getFmt ((s.dropEnd 7).toString); pure (.spmatrix f)
          else throw s!"bad container {s}"
 
+def site : Site :=
+  { priorMatrixToArray := Ens.Generated.BuildersSite.priorMatrixToArray
+    transposeHalfIntLiteral := Ens.Generated.BuildersSite.transposeHalfIntLiteral
+    transposeTotalSum := Ens.Generated.BuildersSite.transposeTotalSum }
+
+def getCallInfo (n : Nat) (req : Json) : Except String CallInfo := do
+  let calcEq ← getBool (← field req "calc")
+  let blocky ← getBool (← field req "bsr_blocky")
+  pure { multi := decide (2 ≤ n), calcEq := calcEq, bsrBlocky := blocky }
+
 def handle (op : String) (req : Json) : Except String Json := do
   match op with
   | "normalize" =>
@@ -80,7 +92,20 @@ def handle (op : String) (req : Json) : Except String Json := do
     checkShape n rows
     let prior ← getPrior getRat n req
     let calcEq ← getBool (← field req "calc")
-    pure (outJson n (transposeBuilder n (toMatFn rows) prior calcEq))
+    let c ← getContainer (← getStr (← field req "container"))
+    let intDtype ← getBool (← field req "int_dtype")
+    let pk := match prior with
+      | .none => PriorKind.none
+      | .scalar _ => PriorKind.scalar
+      | .matrix _ => PriorKind.dense
+    let o := transposeBuilder n (toMatFn rows) prior calcEq
+    -- the container in which `C_sym / 2` is evaluated
+    match builderContainers site (← getCallInfo n req) .transpose c pk with
+    | .error .valueError => pure (errJson "value-error")
+    | .ok (cS, _) =>
+      let trunc := halfTruncates site.transposeHalfIntLiteral cS intDtype
+      let S := symmetrize (applyPrior (toMatFn rows) prior)
+      pure (outJson n { o with counts := fun i j => halfEntry trunc (S i j) })
   | "mle" =>
     let n ← getNat (← field req "n")
     let rows ← getList (getList C12.getF) (← field req "C")
@@ -104,6 +129,7 @@ def handle (op : String) (req : Json) : Except String Json := do
       pure (okJson (Json.mkObj [("C", m o.counts), ("T", m o.probs),
         ("pi", optJson (fun p => listJson C12.fJson (tabulate n p)) o.eq)]))
   | "containers" =>
+    let n ← getNat (← field req "n")
     let b ← match ← getStr (← field req "builder") with
       | "normalize" => pure BuilderId.normalize
       | "transpose" => pure BuilderId.transpose
@@ -115,7 +141,7 @@ def handle (op : String) (req : Json) : Except String Json := do
       | "scalar" => pure PriorKind.scalar
       | "dense" => pure PriorKind.dense
       | s => throw s!"bad prior kind {s}"
-    match builderContainers b c p with
+    match builderContainers site (← getCallInfo n req) b c p with
     | .error .valueError => pure (errJson "value-error")
     | .ok (cC, cT) => pure (okJson (Json.arr #[Json.str (containerStr cC), Json.str (containerStr cT)]))
   | "scipy_table" =>
@@ -123,8 +149,8 @@ def handle (op : String) (req : Json) : Except String Json := do
     let c ← getContainer (← getStr (← field req "container"))
     pure (okJson (Json.mkObj [
       ("sym", Json.str (containerStr (symContainer c))),
-      ("plus_scalar", Json.str (containerStr (priorContainer c .scalar))),
-      ("plus_dense", Json.str (containerStr (priorContainer c .dense)))]))
+      ("plus_scalar", Json.str (containerStr (priorContainer false c .scalar))),
+      ("plus_dense", Json.str (containerStr (priorContainer false c .dense)))]))
   | _ => throw s!"bad-op C04.{op}"
 
 end Drv.C04
